@@ -7,7 +7,7 @@ CONSTANTS
   Clients = {1, 2}
   MaxBatches = 3
   MaxOps = 2
-  T = 1
+  T = 9
   LostInsert = TRUE
   FlushMax = TRUE
   FoldCancel = TRUE
